@@ -211,6 +211,9 @@ func c05Run(c c05Case) error {
 	ev.Class("scheme=" + w.Scheme)
 	ev.Class("sep=" + w.Sep.Kind)
 	ev.Class(fmt.Sprintf("mode=%d", c.Mode))
+	if w.Length > 64 {
+		ev.Class("length>64")
+	}
 	if (w.Length >= 2 && w.Scheme != "none") || w.Sep.Kind != "const" || len(w.Sep.Const) != 1 {
 		ev.NonTrivial(fmt.Sprintf("%v|%d|%s|%+v|%d", oracle.Kept(w.Words), w.Length, w.Scheme, w.Sep, c.Mode))
 	}
@@ -223,8 +226,12 @@ func TestC05(t *testing.T) {
 		return
 	}
 	ev.Check(t, "c05_structure", ev.N(24000, 500000), func(t *rapid.T) c05Case {
+		w := gen.WL(t, gen.WLOpts{List: gen.WordListOpts{Min: 1, Max: 12}, MaxLen: 12, AllowScript: true, UnknownCap: true})
+		if rapid.IntRange(0, 11).Draw(t, "long") == 0 {
+			w.Length = rapid.IntRange(13, 300).Draw(t, "long_length") // "all lengths >= 1"
+		}
 		return c05Case{
-			W:      gen.WL(t, gen.WLOpts{List: gen.WordListOpts{Min: 1, Max: 12}, MaxLen: 12, AllowScript: true, UnknownCap: true}),
+			W:      w,
 			Mode:   rapid.IntRange(0, 3).Draw(t, "mode"),
 			Script: gen.Uint32s(t, "script", 8),
 			Key:    rapid.Uint64().Draw(t, "key"),
